@@ -44,7 +44,7 @@ SPECS = {
                 "dedup_by", "dedup_by_key", "into_iter", "into_iter_nth", "into_bump_slice", "into_boxed", "drop", "append", "split_off", "extend",
                 "clone", "insert", "push"], thorough_scale=40,
                partial=["Own preservation is proved for every method of the list: push, pop, insert, remove, swap_remove, truncate/clear, "
-                        "append, split_off, drain, into_iter, retain, drain_filter, dedup(_by/_by_key), extend (caller's iterator), drop, "
+                        "append, split_off, drain, into_iter, into_iter().nth (Proofs/VecNth.lean), retain, drain_filter, dedup(_by/_by_key), extend (caller's iterator), drop, "
                         "into_bump_slice, splice (every path), into_boxed_slice (+ drop of the box), vec! (both forms, every path) (and, in "
                         "Props/C16, resize, extend_from_slice, clone, from_iter_in); not modelled: Splice::next_back; a second panic while "
                         "unwinding aborts the process and is outside the statement"]),
